@@ -187,10 +187,10 @@ ResolveBegin(q) ==
     /\ Log([a |-> "Resolve", q |-> q])
     /\ UNCHANGED <<docs, ops, nnet, broken>>
 
-Hop ==
+\* hit: the document comes from the cache (the code: whenever it is there)
+HopWith(hit) ==
     /\ rs.pc = "run"
-    /\ LET hit == UseCache /\ rs.cache[rs.d].st # "nil"
-           deep == rs.depth >= rs.q.max
+    /\ LET deep == rs.depth >= rs.q.max
            doc == IF hit THEN rs.cache[rs.d] ELSE docs[rs.d]
            r1 == IF hit \/ deep THEN rs
                  ELSE [rs EXCEPT !.reads = Append(@, rs.d),
@@ -210,6 +210,7 @@ Hop ==
                     ELSE end(Fail("bad-ref"))
                ELSE end(Found(rs.d, rs.t, e))
     /\ UNCHANGED <<docs, ops, nops, nnet, broken>>
+Hop == rs.pc = "run" /\ HopWith(UseCache /\ rs.cache[rs.d].st # "nil")
 
 \* ------------------------------------------------------------------ environment
 NetUpdate(d, nd) ==
@@ -224,10 +225,10 @@ NetUpdate(d, nd) ==
 MayEnter(p, d) == \A q \in Procs \ {p} : ops[q].pc = "checked" => (PerDidLock /\ ops[q].d # d)
 
 Finish(p, c, kind, v, causes) ==
-    /\ ops' = [ops EXCEPT ![p] = [pc |-> "done", kind |-> kind, d |-> c.d, t |-> c.t, v |-> v]]
+    /\ ops' = [ops EXCEPT ![p] = [pc |-> "done", kind |-> kind, c |-> c, d |-> c.d, v |-> v, causes |-> causes]]
     /\ Log([a |-> kind, p |-> p, c |-> c, v |-> v, causes |-> causes])
 Checked(p, c, kind, nd) ==
-    /\ ops' = [ops EXCEPT ![p] = [pc |-> "checked", kind |-> kind, d |-> c.d, t |-> c.t, nd |-> nd]]
+    /\ ops' = [ops EXCEPT ![p] = [pc |-> "checked", kind |-> kind, c |-> c, d |-> c.d, nd |-> nd]]
     /\ Log([a |-> kind, p |-> p, c |-> c, v |-> "ok", causes |-> {}])
 
 \* addService: resolve, duplicate type?, Manager.Update: validate
@@ -264,15 +265,16 @@ OpWrite(p) ==
     /\ ops[p].pc = "checked"
     /\ docs' = [docs EXCEPT ![ops[p].d] = ops[p].nd]
     /\ broken' = broken \cup (Unresolvable(docs') \ Unresolvable(docs))
-    /\ ops' = [ops EXCEPT ![p] = [pc |-> "done", kind |-> @.kind, d |-> @.d, t |-> @.t, v |-> "ok"]]
+    /\ ops' = [ops EXCEPT ![p] = [pc |-> "done", kind |-> @.kind, c |-> @.c, d |-> @.d, v |-> "ok", causes |-> {}]]
     /\ Log([a |-> "Write", p |-> p, d |-> ops[p].d, old |-> DocJ(docs[ops[p].d]), new |-> DocJ(ops[p].nd)])
     /\ UNCHANGED <<rs, nops, nnet>>
 
-GetCompound(c) ==
-    /\ nops < MaxOps
+GetCompound(p, c) ==
+    /\ ops[p].pc \in {"idle", "done"} /\ nops < MaxOps
     /\ nops' = nops + 1
-    /\ Log([a |-> "GetCompound", c |-> c, r |-> GetC(docs, c)])
-    /\ UNCHANGED <<docs, rs, ops, nnet, broken>>
+    /\ ops' = [ops EXCEPT ![p] = [pc |-> "done", kind |-> "GetCompound", c |-> c, d |-> c.d, v |-> GetC(docs, c).v, causes |-> {}]]
+    /\ Log([a |-> "GetCompound", p |-> p, c |-> c, r |-> GetC(docs, c)])
+    /\ UNCHANGED <<docs, rs, nnet, broken>>
 
 Next ==
     \/ \E q \in ResolveQueries : ResolveBegin(q)
@@ -280,8 +282,8 @@ Next ==
     \/ \E d \in DIDs : \E nd \in NetDocs(d) : NetUpdate(d, nd)
     \/ \E p \in Procs : \/ \E c \in AddChoices : AddCheck(p, c)
                         \/ \E c \in DeleteChoices : DeleteCheck(p, c)
+                        \/ \E c \in CompoundQueries : GetCompound(p, c)
                         \/ OpWrite(p)
-    \/ \E c \in CompoundQueries : GetCompound(c)
 
 Spec == Init /\ [][Next]_vars
 FairSpec == Spec /\ WF_vars(Hop) /\ \A p \in Procs : WF_vars(OpWrite(p))
